@@ -194,4 +194,91 @@ example : Val.Structy idCfg4 true (.array [.int 1, .hash [(.str "a", .array [.st
         intro y hy; simp at hy; rcases hy with rfl | rfl <;> exact Val.Structy.leaf _ trivial
       · exact Val.Structy.leaf _ trivial
 
+
+/-! ### known finding C04-dtype-emptykey-sfh: the SECOND law is false of the code on the class `C04_dtype` excludes.
+    The detailed type of a hash keyed by strings only with the empty string among them is `Hash[Enum[keys], fold commonType over the
+    detailed types of the values]`; `commonType` returns the argument that accepts the other one, and a Struct whose members are all
+    optional accepts ANY Hash type of fitting size through the exempt Struct-from-Hash rule — so the fold answers a Struct that the
+    other hash is not an instance of.  Witness (found by the thorough tier on the implementation):
+    `{'B' => {'' => 0}, '' => {'ab' => undef}}`, detailed type `Hash[Enum['B',''], Struct[{Optional['ab'] => Undef}], 2, 2]`. -/
+set_option maxRecDepth 8000
+def ek_wv : Val := .hash [(.str "B", .hash [(.str "", .int 0)]), (.str "", .hash [(.str "ab", .undef)])]
+theorem ek_uu : asg idCfg4 true .undef .undef = true := by simp [asg, asgRecv, sameNullary]
+theorem ek_d1 : dtype idCfg4 true (.hash [(.str "", .int 0)]) = .hash (.strVal "") (.int ⟨0,0⟩) ⟨1,1⟩ := by
+  simp [dtype, dtypeFoldK, dtypeFoldV, dtypeM, keyIsStr, ptype, isStrKey, isEmptyStrKey, keyName, Rng.exact]
+theorem ek_d2 : dtype idCfg4 true (.hash [(.str "ab", .undef)]) = .struct [("ab", true, .undef)] := by
+  simp [dtype, dtypeFoldK, dtypeFoldV, dtypeM, keyIsStr, ptype, isStrKey, isEmptyStrKey, keyName, Rng.exact, ek_uu]
+theorem ek_c1 : commonType idCfg4 true (Ty.strVal "B") (Ty.strVal "") = Ty.enum ["B", ""] false := by
+  simp [commonType, commonF, Ty.isUnit, Ty.w, asg, asgRecv, sameNullary, isStringFamily]
+theorem ek_a1 : asg idCfg4 true (Ty.struct [("ab", true, Ty.undef)]) ((Ty.strVal "").hash (Ty.int ⟨0,0⟩) ⟨1,1⟩) = true := by
+  simp [asg, asgRecv, sameNullary, structReq, structSize, Rng.sub]
+theorem ek_a2 : asg idCfg4 true ((Ty.strVal "").hash (Ty.int ⟨0,0⟩) ⟨1,1⟩) (Ty.struct [("ab", true, Ty.undef)]) = false := by
+  simp [asg, asgRecv, sameNullary, structReq, structSize, Rng.sub]
+theorem ek_c2 : commonType idCfg4 true ((Ty.strVal "").hash (Ty.int ⟨0,0⟩) ⟨1,1⟩) (Ty.struct [("ab", true, Ty.undef)]) = Ty.struct [("ab", true, Ty.undef)] := by
+  simp [commonType, commonF, Ty.isUnit, Ty.w, Ty.wm, ek_a1, ek_a2]
+theorem ek_d3 : dtype idCfg4 true ek_wv = .hash (.enum ["B", ""] false) (.struct [("ab", true, .undef)]) ⟨2,2⟩ := by
+  simp [ek_wv, dtype, dtypeFoldK, dtypeFoldV, dtypeM, keyIsStr, ptype, isStrKey, isEmptyStrKey, keyName, Rng.exact, ek_uu, ek_c1, ek_c2]
+theorem ek_i3 : inst idCfg4 true (.hash (.enum ["B", ""] false) (.struct [("ab", true, .undef)]) ⟨2,2⟩) ek_wv = false := by
+  simp [ek_wv, inst, instEntries, instStruct, hashGetW, keyIsStr, Rng.contains, distinctCount]
+theorem ek_wvOK : ek_wv.OK := by
+  unfold ek_wv
+  refine Val.OK.hash _ ?_ ?_ ?_
+  · intro n; simp [List.countP_cons, keyIs, keyIsStr]; split <;> split <;> (first | omega | (subst_vars; simp_all))
+  · intro e he; simp at he; rcases he with rfl | rfl <;> exact Val.OK.str _
+  · intro e he; simp at he
+    rcases he with rfl | rfl
+    · refine Val.OK.hash _ ?_ ?_ ?_
+      · intro n; simp [List.countP_cons, keyIs, keyIsStr]; split <;> omega
+      · intro e he; simp at he; subst he; exact Val.OK.str _
+      · intro e he; simp at he; subst he; exact Val.OK.int _
+    · refine Val.OK.hash _ ?_ ?_ ?_
+      · intro n; simp [List.countP_cons, keyIs, keyIsStr]; split <;> omega
+      · intro e he; simp at he; subst he; exact Val.OK.str _
+      · intro e he; simp at he; subst he; exact Val.OK.undef
+theorem C04_dtype_full_fails_emptykey : ¬ C04_dtype_full := by
+  intro h
+  have := h idCfg4 ek_wv ek_wvOK
+  rw [ek_d3, ek_i3] at this
+  exact absurd this (by decide)
+
+/-! ### known finding C04-common-iterable: the FIFTH law (commonType is an upper bound) is false of the code where Iterable meets a
+    Struct: Iterable[T] accepts the Hash type with maximal size 0, which accepts the empty Struct, but Iterable has no rule for Struct
+    (C03-trans-iterable), so the element fold of two Tuples answers an Iterable that rejects a declared Struct.  Witness (found by the
+    quick tier, seed 4, on the implementation): `Tuple[Hash[Any,Regexp[/b/],0,0], Struct[{}], 0, 2]` and `Tuple[Iterable[Timespan[1,5]]]`. -/
+local notation "H00" => Ty.hash Ty.any (Ty.regexp "b") ⟨0, 0⟩
+local notation "ITT" => Ty.iterable (Ty.tspan ⟨1, 5⟩)
+local notation "TA" => Ty.tuple [H00, Ty.struct []] (some ⟨0, 2⟩)
+local notation "TB" => Ty.tuple [ITT] none
+theorem it_e1 : asg idCfg4 true H00 (.struct []) = true := by
+  simp [asg, asgRecv, sameNullary, structSize, Rng.sub, asgMembers]
+theorem it_e2 : asg idCfg4 true ITT H00 = true := by
+  simp [asg, asgRecv, sameNullary]
+theorem it_e3 : asg idCfg4 true ITT (.struct []) = false := by
+  simp [asg, asgRecv, sameNullary]
+theorem it_e4 : asg idCfg4 true H00 ITT = false := by
+  simp [asg, asgRecv, sameNullary]
+theorem it_e5 : asg idCfg4 true TA TB = false := by
+  simp [asg, asgRecv, sameNullary, tupleSize, Rng.sub, Rng.exact, tupZip, it_e4]
+theorem it_e6 : asg idCfg4 true TB TA = false := by
+  simp [asg, asgRecv, sameNullary, tupleSize, Rng.sub, Rng.exact, tupZip, it_e2, it_e3]
+theorem it_f1 (n : Nat) : commonF idCfg4 true (n + 1) H00 (.struct []) = H00 := by
+  simp [commonF, Ty.isUnit, it_e1]
+theorem it_f2 (n : Nat) : commonF idCfg4 true (n + 1) H00 ITT = ITT := by
+  simp [commonF, Ty.isUnit, it_e2, it_e4]
+theorem it_f3a (n : Nat) : commonF idCfg4 true (n + 2) TA TB = .array ITT ⟨0, 2⟩ := by
+  rw [commonF]
+  simp only [Ty.isUnit, it_e5, it_e6, Bool.false_eq_true, if_false, foldCet, List.foldl, it_f1, it_f2, tupleSize, Rng.hull, Rng.exact]
+  simp; decide
+theorem it_f3 : commonType idCfg4 true TA TB = .array ITT ⟨0, 2⟩ := by
+  unfold commonType
+  have hw : (TA).w + (TB).w + 2 = (TA).w + (TB).w + 0 + 2 := by omega
+  rw [hw, it_f3a]
+theorem it_f4 : asg idCfg4 true (.array ITT ⟨0, 2⟩) TA = false := by
+  simp [asg, asgRecv, sameNullary, tupleSize, Rng.sub, Rng.exact, tupZip, it_e2, it_e3]
+theorem C04_common_full_fails_iterable : ¬ C04_common_full := by
+  intro h
+  have := (h idCfg4 TA TB (by simp [Ty.WF]) (by simp [Ty.WF])).1
+  rw [it_f3, it_f4] at this
+  exact absurd this (by decide)
+
 end Pcore.Lat
